@@ -216,6 +216,23 @@ func genC01Scenario(seed int64, idx int) c01Scenario {
 		for i := 0; i < nf; i++ {
 			sc.files[fmt.Sprintf("f%02d.lua", i)] = fmt.Sprintf("print(gvar, gfun(%d), GT.k)\nlocal function l%d() return gvar end\nprint(l%d)\n", i, i, i)
 		}
+		if (idx/9)%2 == 0 {
+			// project mode: every fNN.lua is an entry file of its own, all projects require a file that declares a _G table and
+			// one that adds several thousand members to it (the per-project second passes run in parallel and share the
+			// first-pass symbol of that table)
+			var entries, ext []string
+			for i := 0; i < nf; i++ {
+				name := fmt.Sprintf("f%02d.lua", i)
+				entries = append(entries, "\""+name+"\"")
+				sc.files[name] = "require(\"def\")\nrequire(\"ext\")\nprint(gtab.m1, gvar)\n"
+			}
+			for i := 0; i < 3000; i++ {
+				ext = append(ext, fmt.Sprintf("gtab.m%d = %d", i, i))
+			}
+			sc.files["def.lua"] = "_G.gtab = { one = 1 }\n"
+			sc.files["ext.lua"] = strings.Join(ext, "\n") + "\n"
+			sc.files["luahelper.json"] = "{\"ShowWarnFlag\":1,\"ProjectFiles\":[" + strings.Join(entries, ",") + "]}"
+		}
 	default: // file events on malformed files
 		sc.kind = "file-events"
 		sc.files["main.lua"] = c01Valid(r, 3)
